@@ -227,28 +227,33 @@ func checkC17(c *Ctx) {
 		listen := p.MethodOf(types.NewPointer(inT), "Listen")
 		okStop, whyStop := false, "stop closure not found"
 		if listen != nil {
-			for _, af := range listen.AnonFuncs {
-				var snd *ssa.Send
-				var rcv *ssa.UnOp
-				for _, b := range af.Blocks {
-					for _, in := range b.Instrs {
-						if s, ok := in.(*ssa.Send); ok {
-							snd = s
-						}
-						if u, ok := in.(*ssa.UnOp); ok && u.Op == token.ARROW {
-							rcv = u
+			for _, sf := range stopFunctions(p, listen) {
+				for _, af := range p.Reachable(sf) {
+					if !InModule(af) {
+						continue
+					}
+					var snd *ssa.Send
+					var rcv *ssa.UnOp
+					for _, b := range af.Blocks {
+						for _, in := range b.Instrs {
+							if s, ok := in.(*ssa.Send); ok {
+								snd = s
+							}
+							if u, ok := in.(*ssa.UnOp); ok && u.Op == token.ARROW {
+								rcv = u
+							}
 						}
 					}
-				}
-				if snd == nil {
-					continue
-				}
-				okStop = rcv != nil && instrDominates(snd, rcv)
-				whyStop = "the stop function does not wait for the acknowledgement after requesting the stop"
-				if okStop {
-					for _, r := range allReturns(af) {
-						if canReachAvoiding(snd, r, map[ssa.Instruction]bool{rcv: true}) {
-							okStop = false
+					if snd == nil {
+						continue
+					}
+					okStop = rcv != nil && instrDominates(snd, rcv)
+					whyStop = "the stop function does not wait for the acknowledgement after requesting the stop"
+					if okStop {
+						for _, r := range allReturns(af) {
+							if canReachAvoiding(snd, r, map[ssa.Instruction]bool{rcv: true}) {
+								okStop = false
+							}
 						}
 					}
 				}
@@ -274,22 +279,10 @@ func checkC17(c *Ctx) {
 		c.Fn(FuncName(send))
 		// (a) fields written by the returned stop closure
 		written := map[*types.Var]bool{}
-		for _, r := range allReturns(listen) {
-			if mc, ok := retVal(r, 0).(*ssa.MakeClosure); ok {
-				collectStores(mc.Fn.(*ssa.Function), written)
-			} else if phi, ok := retVal(r, 0).(*ssa.Phi); ok {
-				for _, e := range phi.Edges {
-					if mc, ok := e.(*ssa.MakeClosure); ok {
-						collectStores(mc.Fn.(*ssa.Function), written)
-					}
-				}
-			}
-		}
-		// also closures stored in a local and returned
-		if len(written) == 0 {
-			for _, af := range listen.AnonFuncs {
-				if af.Signature.Params().Len() == 0 && af.Signature.Results().Len() == 0 {
-					collectStores(af, written)
+		for _, sf := range stopFunctions(p, listen) {
+			for _, g := range p.Reachable(sf) {
+				if InModule(g) {
+					collectStores(g, written)
 				}
 			}
 		}
@@ -498,6 +491,16 @@ func checkC17(c *Ctx) {
 					if st, ok := in.(*ssa.Store); ok && carry[st.Val] {
 						if _, isField := st.Addr.(*ssa.FieldAddr); isField {
 							installs[st] = true
+						}
+					}
+					// handed to a setter: a module function that stores that parameter into a field
+					if call, ok := in.(ssa.CallInstruction); ok {
+						if cal := call.Common().StaticCallee(); cal != nil && InModule(cal) {
+							for ai, a := range call.Common().Args {
+								if carry[a] && storesParamToField(cal, ai, 0) {
+									installs[in] = true
+								}
+							}
 						}
 					}
 				}
@@ -1036,6 +1039,24 @@ func configInstalled(p *Program, m *ssa.Function) string {
 	per := map[string]map[ssa.Instruction]bool{}
 	for _, b := range m.Blocks {
 		for _, in := range b.Instrs {
+			if call, ok := in.(ssa.CallInstruction); ok {
+				if cal := call.Common().StaticCallee(); cal != nil && InModule(cal) {
+					for ai, a := range call.Common().Args {
+						if !storesParamToField(cal, ai, 0) {
+							continue
+						}
+						if whole[a] {
+							all[in] = true
+						}
+						if n, ok := part[a]; ok {
+							if per[n] == nil {
+								per[n] = map[ssa.Instruction]bool{}
+							}
+							per[n][in] = true
+						}
+					}
+				}
+			}
 			st, ok := in.(*ssa.Store)
 			if !ok {
 				continue
@@ -1083,4 +1104,156 @@ func configInstalled(p *Program, m *ssa.Function) string {
 		}
 	}
 	return ""
+}
+
+// stopFunctions: the functions Listen may hand back as its stop function (first result): closures made in Listen or in
+// a module function whose result it returns, method values (the method behind the bound-method wrapper), plain
+// functions. Found by following the returned value through phis, result cells and calls of module functions.
+func stopFunctions(p *Program, listen *ssa.Function) []*ssa.Function {
+	seen := map[*ssa.Function]bool{}
+	var out []*ssa.Function
+	add := func(f *ssa.Function) {
+		if f == nil {
+			return
+		}
+		// bound method wrapper: the method it calls
+		if f.Synthetic != "" && strings.Contains(f.Synthetic, "bound") {
+			for _, call := range calls(f) {
+				if cal := call.Common().StaticCallee(); cal != nil {
+					f = cal
+					break
+				}
+			}
+		}
+		if !seen[f] {
+			seen[f] = true
+			out = append(out, f)
+		}
+	}
+	visited := map[ssa.Value]bool{}
+	var follow func(v ssa.Value, fn *ssa.Function, d int)
+	follow = func(v ssa.Value, fn *ssa.Function, d int) {
+		if v == nil || visited[v] || d > 6 {
+			return
+		}
+		visited[v] = true
+		switch x := v.(type) {
+		case *ssa.MakeClosure:
+			add(x.Fn.(*ssa.Function))
+		case *ssa.Function:
+			add(x)
+		case *ssa.Phi:
+			for _, e := range x.Edges {
+				follow(e, fn, d+1)
+			}
+		case *ssa.ChangeType:
+			follow(x.X, fn, d+1)
+		case *ssa.UnOp:
+			if x.Op == token.MUL {
+				if a, ok := x.X.(*ssa.Alloc); ok {
+					for _, u := range *a.Referrers() {
+						if st, ok := u.(*ssa.Store); ok && st.Addr == ssa.Value(a) {
+							follow(st.Val, fn, d+1)
+						}
+					}
+				}
+			}
+		case *ssa.Extract:
+			if call, ok := x.Tuple.(*ssa.Call); ok {
+				if cal := call.Common().StaticCallee(); cal != nil && InModule(cal) {
+					for _, r := range allReturns(cal) {
+						follow(retVal(r, x.Index), cal, d+1)
+					}
+				}
+			}
+		case *ssa.Call:
+			if cal := x.Common().StaticCallee(); cal != nil && InModule(cal) {
+				for _, r := range allReturns(cal) {
+					follow(retVal(r, 0), cal, d+1)
+				}
+			}
+		}
+	}
+	for _, r := range allReturns(listen) {
+		follow(retVal(r, 0), listen, 0)
+	}
+	return out
+}
+
+// storesParamToField: on EVERY path from entry to a return, the function stores its parameter no. idx (possibly wrapped:
+// interface, closure binding, phi) into a struct field, itself or through a module function it hands it to — a setter.
+func storesParamToField(fn *ssa.Function, idx int, depth int) bool {
+	if fn == nil || fn.Blocks == nil || idx >= len(fn.Params) || depth > 3 {
+		return false
+	}
+	carry := map[ssa.Value]bool{fn.Params[idx]: true}
+	for changed := true; changed; {
+		changed = false
+		for _, b := range fn.Blocks {
+			for _, in := range b.Instrs {
+				v, isVal := in.(ssa.Value)
+				if isVal && !carry[v] {
+					switch x := in.(type) {
+					case *ssa.MakeInterface:
+						if carry[x.X] {
+							carry[v], changed = true, true
+						}
+					case *ssa.ChangeType:
+						if carry[x.X] {
+							carry[v], changed = true, true
+						}
+					case *ssa.MakeClosure:
+						for _, bd := range x.Bindings {
+							if carry[bd] {
+								carry[v], changed = true, true
+							}
+						}
+					case *ssa.Phi:
+						for _, e := range x.Edges {
+							if carry[e] {
+								carry[v], changed = true, true
+							}
+						}
+					case *ssa.UnOp:
+						if x.Op == token.MUL && carry[x.X] {
+							carry[v], changed = true, true
+						}
+					}
+				}
+				if st, ok := in.(*ssa.Store); ok && carry[st.Val] {
+					if al, ok := st.Addr.(*ssa.Alloc); ok && !carry[al] {
+						carry[al], changed = true, true
+					}
+				}
+			}
+		}
+	}
+	installs := map[ssa.Instruction]bool{}
+	for _, b := range fn.Blocks {
+		for _, in := range b.Instrs {
+			if st, ok := in.(*ssa.Store); ok && carry[st.Val] {
+				if _, isField := st.Addr.(*ssa.FieldAddr); isField {
+					installs[in] = true
+				}
+			}
+			if call, ok := in.(ssa.CallInstruction); ok {
+				if cal := call.Common().StaticCallee(); cal != nil && InModule(cal) && cal != fn {
+					for ai, a := range call.Common().Args {
+						if carry[a] && storesParamToField(cal, ai, depth+1) {
+							installs[in] = true
+						}
+					}
+				}
+			}
+		}
+	}
+	if len(installs) == 0 {
+		return false
+	}
+	for _, r := range allReturns(fn) {
+		if canReachFromEntryAvoiding(fn, r, installs) {
+			return false
+		}
+	}
+	return true
 }
